@@ -267,6 +267,123 @@ fn run_crash_sweep(seed: u64, tier: Tier) -> RunOutcome {
 	out
 }
 
+/// C06 sweep mode: one off-chain history (profile `justice`, no cheat while it is built), then one
+/// run per revoked commitment of that history: for every channel, either side as the cheater and
+/// *every* archived commitment the other side can punish (not one sampled age), the history is
+/// replayed, the revoked commitment confirmed with a seeded subset of its HTLC transactions, and
+/// the chain run to the end under a seeded liquidation plan with all C06 oracles armed.
+fn run_justice_sweep(seed: u64, tier: Tier) -> RunOutcome {
+	let mut rng = Rng::new(seed);
+	let mut cfg = sched::gen_config("justice", &mut rng, tier);
+	cfg.weights.insert("CheatEarly".to_string(), 0);
+	cfg.weights.insert("Crash".to_string(), 0);
+	let mut base = World::new(cfg.clone());
+	base.out.seed = seed;
+	base.setup();
+	let mut sched_rng = rng.fork("schedule");
+	let mut idle = 0;
+	while (base.trace.len() as u64) < cfg.max_steps && !base.dead && idle < 50 {
+		match sched::next_action(&base, &mut sched_rng) {
+			Some(a) => {
+				if base.apply(&a) {
+					idle = 0;
+				} else {
+					idle += 1;
+				}
+			},
+			None => break,
+		}
+	}
+	if !base.dead {
+		base.apply(&Action::Settle);
+	}
+	let scenario: Vec<Action> = base.trace.clone();
+	let mut out = RunOutcome::new("justicesweep", seed);
+	out.seed = seed;
+	out.counters = base.out.counters.clone();
+	out.violations = base.out.violations.clone();
+	out.harness_errors = base.out.harness_errors.clone();
+	out.state_fps = base.state_fps.iter().cloned().collect();
+	out.interleaving_fp = base.inter;
+	out.history_fp = base.hist;
+	out.steps = base.step;
+	if !out.violations.is_empty() || base.dead {
+		let b = base.finish();
+		out.replay = b.replay;
+		out.sample = b.sample;
+		return out;
+	}
+	// every (cheater, channel, revoked state) of this history
+	let mut variants: Vec<(usize, usize, u32)> = Vec::new();
+	for c in base.chans.iter() {
+		if !base.chain.utxos.contains_key(&c.funding) {
+			continue;
+		}
+		for x in [c.a, c.b] {
+			for age in 0..base.revoked_entries(x, c.idx).len() {
+				variants.push((x, c.idx, age as u32));
+			}
+		}
+	}
+	out.counters.insert("probe:revoked_states_in_history".to_string(), variants.len() as u64);
+	let mut pick = rng.fork("variants");
+	let cap = match tier {
+		Tier::Quick => 16,
+		Tier::Thorough => 400,
+	};
+	if variants.len() > cap {
+		pick.shuffle(&mut variants);
+		variants.truncate(cap);
+		variants.sort();
+	} else if !variants.is_empty() {
+		out.bump("probe:every_revoked_state_of_the_history_confirmed");
+	}
+	let mut plan_rng = rng.fork("plans");
+	let liq = sched::gen_liq_plan(&base, &mut plan_rng);
+	drop(base);
+	let mut first_replay = None;
+	for (x, chan, age) in variants.iter() {
+		let mut trace = scenario.clone();
+		let same_block = if plan_rng.chance(1, 2) { plan_rng.next_u64() as u32 } else { 0 };
+		let later = if plan_rng.chance(2, 3) { plan_rng.next_u64() as u32 } else { 0 };
+		trace.push(Action::Cheat { n: *x, chan: *chan, age: *age, same_block, later, v_late: plan_rng.below(4) as u8 });
+		trace.push(liq.clone());
+		trace.push(Action::Liquidate);
+		let wd = World::new(cfg.clone());
+		let sub = run_world(wd, None, Some(trace), seed);
+		out.bump("revoked_states_explored");
+		for (key, val) in sub.counters.iter() {
+			if key.starts_with("fault:") || key.starts_with("probe:") || key.starts_with("oracle:") || key.starts_with("closure:") {
+				*out.counters.entry(key.clone()).or_insert(0) += *val;
+			}
+		}
+		out.history_fp = simcore::fnv_extend(out.history_fp, &sub.history_fp.to_le_bytes());
+		out.steps += sub.steps;
+		out.sim_blocks += sub.sim_blocks;
+		out.sim_seconds += sub.sim_seconds;
+		for he in sub.harness_errors.iter() {
+			if out.harness_errors.len() < 3 {
+				out.harness_errors.push(he.clone());
+			}
+		}
+		for viol in sub.violations.iter() {
+			let known = out.violations.iter().any(|v| v.property == viol.property && v.oracle == viol.oracle);
+			if !known {
+				out.violations.push(viol.clone());
+				if first_replay.is_none() {
+					first_replay = sub.replay.clone();
+				}
+			}
+		}
+		if out.sample.is_none() {
+			out.sample = sub.sample.clone();
+		}
+	}
+	out.nontrivial = out.counters.get("fault:revoked_commitment_confirmed").copied().unwrap_or(0) > 0;
+	out.replay = first_replay;
+	out
+}
+
 impl Sim for LnSim {
 	fn name(&self) -> &'static str {
 		"lnsim"
@@ -275,6 +392,9 @@ impl Sim for LnSim {
 	fn run(&self, profile: &str, seed: u64, tier: Tier) -> RunOutcome {
 		if profile == "crashsweep" {
 			return run_crash_sweep(seed, tier);
+		}
+		if profile == "justicesweep" {
+			return run_justice_sweep(seed, tier);
 		}
 		let mut rng = Rng::new(seed);
 		let cfg = sched::gen_config(profile, &mut rng, tier);
